@@ -6,4 +6,5 @@ From PV Require Import Extract.Deps.
 Extraction Language OCaml.
 Extraction "model.ml"
   filter_escape filter_addslashes filter_safe filter_escapejs filter_urlencode
-  filter_iriencode filter_striptags filter_removetags.
+  filter_iriencode filter_striptags filter_removetags
+  lex.
